@@ -240,3 +240,8 @@ Definition wf (ops : list op) : Prop :=
    topic's name and its number; the class is decided here. *)
 Definition topic_of_name (name : string) (n : N) : topic :=
   if prefix "stream/" name then TStream n else TFeed n.
+
+(* rule.Stream == "deleteAll" / stream == "deleteAll" : the reserved word of the rule table is that exact
+   string; every other string is an ordinary key.  Rule keys with names of their own arrive by name. *)
+Definition stream_of_name (name : string) (n : N) : N :=
+  if String.eqb name "deleteAll" then reserved else n.
